@@ -34,5 +34,8 @@ shutil.copy(patch, out / "patch.diff")
 rd = Path(patch).parent / "README.md"
 if rd.exists():
     shutil.copy(rd, out / "README.md")
+res["alarms"] = [c for c, v in res["checks"].items() if v["exit"] != 0]
+res["what"] = rd.read_text().splitlines()[0].lstrip("# ").strip() if rd.exists() else ""
+res["patch"] = "patch.diff"
 (out / "meta.json").write_text(json.dumps(res, indent=1))
 print("ALARMS:", [c for c, v in res["checks"].items() if v["exit"] != 0])
